@@ -195,115 +195,714 @@ mod proofs {
     }
 
     // ------------------------------------------------------------------ table file (htx.rs)
-    /// table image for `n` buckets built from symbolic heads; bitmap consistent with the heads
-    fn htx_image<const N: usize>(heads: &[u64; N], count: u64) -> (Vec<u8>, u64) {
-        let n = N as u64;
-        let bm = if N >= 8 { N / 8 } else { 1 };
-        let total = 128 + 8 * N + bm;
-        let mut img = vec![0u8; total + 16];
+    // A table file for N buckets is T = 128 + 8N + max(N/8, 1) + 8 fully symbolic bytes; only the
+    // header words are pinned and the occupancy bitmap is constrained to agree with the bucket
+    // heads ("bit <=> head != 0", the part of I2 that htx.rs maintains itself).
+    #[inline]
+    fn head(img: &[u8], j: usize) -> u64 {
+        let p = 128 + 8 * j;
+        u64::from_le_bytes([img[p], img[p + 1], img[p + 2], img[p + 3], img[p + 4], img[p + 5], img[p + 6], img[p + 7]])
+    }
+    /// bitmap byte g agrees with the heads of buckets 8g .. 8g+7
+    #[inline]
+    fn fix_group<const N: usize, const T: usize>(img: &[u8; T], g: usize) {
+        let mut byte = 0u8;
+        macro_rules! bit {
+            ($k:expr) => {
+                if 8 * g + $k < N && head(img, 8 * g + $k) != 0 {
+                    byte |= 1 << $k;
+                }
+            };
+        }
+        bit!(0);
+        bit!(1);
+        bit!(2);
+        bit!(3);
+        bit!(4);
+        bit!(5);
+        bit!(6);
+        bit!(7);
+        kani::assume(img[128 + 8 * N + g] == byte);
+    }
+    fn table<const N: usize, const T: usize>() -> ([u8; T], u64) {
+        let mut img: [u8; T] = kani::any();
+        let nb = (N as u64).to_le_bytes();
         let mut i = 0;
         while i < 8 {
             img[i] = spec::SIG_HTX[i];
             img[8 + i] = spec::TSIG_BYTES[i];
-            i += 1;
-        }
-        let nb = n.to_le_bytes();
-        let cb = count.to_le_bytes();
-        i = 0;
-        while i < 8 {
             img[16 + i] = nb[i];
-            img[24 + i] = cb[i];
             i += 1;
         }
-        let mut j = 0;
-        while j < N {
-            let le = heads[j].to_le_bytes();
-            let mut k = 0;
-            while k < 8 {
-                img[128 + 8 * j + k] = le[k];
-                k += 1;
-            }
-            if heads[j] != 0 {
-                img[128 + 8 * N + j / 8] |= 1 << (j % 8);
-            }
-            j += 1;
+        let bm0 = 128 + 8 * N;
+        let nbm = if N >= 8 { N / 8 } else { 1 };
+        // (written without a loop so that the unwind bound of a harness is not driven by n / 8)
+        macro_rules! g1 {
+            ($g:expr) => {
+                if $g < nbm {
+                    fix_group::<N, T>(&img, $g);
+                }
+            };
         }
-        (img, total as u64)
+        macro_rules! g16 {
+            ($b:expr) => {
+                g1!($b);
+                g1!($b + 1);
+                g1!($b + 2);
+                g1!($b + 3);
+                g1!($b + 4);
+                g1!($b + 5);
+                g1!($b + 6);
+                g1!($b + 7);
+                g1!($b + 8);
+                g1!($b + 9);
+                g1!($b + 10);
+                g1!($b + 11);
+                g1!($b + 12);
+                g1!($b + 13);
+                g1!($b + 14);
+                g1!($b + 15);
+            };
+        }
+        g16!(0);
+        if nbm > 16 {
+            g16!(16);
+        }
+        if nbm > 32 {
+            g16!(32);
+            g16!(48);
+        }
+        assert!(nbm <= 64);
+        // a table of fewer than 8 buckets is created without its bitmap byte (length 128 + 8N);
+        // the byte appears with the first bucket write
+        let mut end = (bm0 + nbm) as u64;
+        if N < 8 {
+            let has_bm: bool = kani::any();
+            if !has_bm {
+                kani::assume(img[bm0] == 0);
+                end = bm0 as u64;
+            }
+        }
+        // beyond the end of the file the buffer reads zeros
+        let mut i = bm0 + nbm;
+        while i < T {
+            img[i] = 0;
+            i += 1;
+        }
+        (img, end)
+    }
+    macro_rules! tsize {
+        ($n:expr) => {
+            128 + 8 * $n + (if $n >= 8 { $n / 8 } else { 1 }) + 8
+        };
     }
 
-    /// next_key_piece_offset(n, idx) = (j+1, head[j]) for the least non-empty j >= idx, else
-    /// (>= n, 0); no write, no extension, position stays inside the file (+8 bytes read slack)
-    fn scan_one<const N: usize>(f: &mut VarFile, heads: &[u64; N], idx: u64) {
-        let n = N as u64;
-        let (next, off) = ok(f.next_key_piece_offset(n, idx));
-        let mut j = idx;
-        let mut expect_j = n;
-        while j < n {
-            if heads[j as usize] != 0 && expect_j == n {
-                expect_j = j;
-            }
-            j += 1;
-        }
-        if expect_j < n {
-            assert!(off.as_value() == heads[expect_j as usize], "scan returned the wrong bucket head");
-            assert!(next == expect_j + 1, "scan returned the wrong next index");
-        } else {
-            assert!(off.as_value() == 0, "scan invented an entry");
-            assert!(next >= n, "scan stopped before the end of the table");
-        }
-    }
-    fn scan_sym_idx<const N: usize>() {
-        let heads: [u64; N] = kani::any();
-        let (img, end) = htx_image(&heads, 0);
-        let mut buf = BufFile::from_image(img, end);
+    /// scan contract with one universally quantified bucket j:
+    /// next_key_piece_offset(n, idx) = (r + 1, head[r]) for the least non-empty r >= idx, else
+    /// (>= n, 0); read-only, no extension of the file, position stays at the file
+    fn scan<const N: usize, const T: usize>(aligned: bool) {
+        let (img, end) = table::<N, T>();
+        let mut buf = BufFile::from_image(img.to_vec(), end);
         buf.ro = true;
         let mut f = verif::htx::var_file(buf);
+        let n = N as u64;
+        let idx: u64 = kani::any();
+        kani::assume(idx < n);
+        if aligned {
+            kani::assume(idx % 8 == 0);
+        }
+        let (next, off) = ok(f.next_key_piece_offset(n, idx));
+        let j: u64 = kani::any();
+        kani::assume(j >= idx && j < n);
+        if off.as_value() != 0 {
+            assert!(next >= idx + 1 && next <= n, "scan: next index out of range");
+            assert!(head(&img, (next - 1) as usize) == off.as_value(), "scan returned an offset that is not the head of the bucket before the next index");
+            if j < next - 1 {
+                assert!(head(&img, j as usize) == 0, "scan skipped a non-empty bucket");
+            }
+        } else {
+            assert!(next >= n, "scan stopped before the end of the table without a result");
+            assert!(head(&img, j as usize) == 0, "scan missed a non-empty bucket");
+        }
+        let b = f.verif_buf();
+        assert!(b.end == end && b.n_extend_by_seek == 0 && b.n_set_len == 0, "scan changed the length of the file");
+        assert!(b.pos <= end + 8, "scan left the position far beyond the end of the file");
+        kani::cover!(off.as_value() != 0 && idx % 8 == 0 && next >= idx + 9, "hit found through the bitmap");
+        kani::cover!(off.as_value() == 0, "nothing found");
+        kani::cover!(idx + 8 >= n, "start in the last group");
+        core::mem::forget(f);
+    }
+    macro_rules! scan_proof {
+        ($name:ident, $n:expr, $unwind:expr, $aligned:expr) => {
+            #[kani::proof]
+            #[kani::unwind($unwind)]
+            fn $name() {
+                scan::<$n, { tsize!($n) }>($aligned);
+            }
+        };
+    }
+    // every start index (the linear part of the scan may run to the end of the table)
+    scan_proof!(b_scan_n1, 1, 11, false);
+    scan_proof!(b_scan_n2, 2, 11, false);
+    scan_proof!(b_scan_n4, 4, 11, false);
+    scan_proof!(b_scan_n8, 8, 11, false);
+    scan_proof!(b_scan_n16, 16, 19, false);
+    // every group-aligned start index: all three loops are bounded independently of n
+    // (stride <= n/64 + 1, byte scan <= 10, linear scan <= 9 on a consistent bitmap)
+    scan_proof!(b_scan_g32, 32, 11, true);
+    scan_proof!(b_scan_g64, 64, 11, true);
+    scan_proof!(b_scan_g128, 128, 11, true);
+    scan_proof!(b_scan_g256, 256, 11, true);
+    scan_proof!(b_scan_g512, 512, 11, true);
+
+    // ------------------------------------------------------------------ bucket write + bitmap
+    /// write_key_piece_offset(n, idx, off): bucket idx = off, its bitmap bit = (off != 0), every
+    /// other bucket, every other bit, the header and the file length untouched
+    fn bucket_write<const N: usize, const T: usize>() {
+        let (img, end) = table::<N, T>();
+        let mut f = verif::htx::var_file(BufFile::from_image(img.to_vec(), end));
         let idx: u64 = kani::any();
         kani::assume(idx < N as u64);
-        scan_one(&mut f, &heads, idx);
-        assert!(f.verif_buf().end == end && f.verif_buf().n_extend_by_seek == 0, "scan extended the file");
-        kani::cover!(idx % 8 == 0, "bitmap path");
-        kani::cover!(idx % 8 != 0, "linear path");
-        core::mem::forget(f);
-    }
-    /// every group-aligned start index and one arbitrary residue start, table fully symbolic
-    fn scan_all_groups<const N: usize>() {
-        let heads: [u64; N] = kani::any();
-        let (img, end) = htx_image(&heads, 0);
-        let mut buf = BufFile::from_image(img, end);
-        buf.ro = true;
-        let mut f = verif::htx::var_file(buf);
-        let mut g = 0u64;
-        while g < N as u64 {
-            scan_one(&mut f, &heads, g);
-            g += 8;
+        let off: u64 = kani::any();
+        ok(verif::htx::write_key_piece_offset(&mut f, N as u64, idx, off));
+        let b = f.verif_buf();
+        let bm0 = 128 + 8 * N;
+        let nbm = if N >= 8 { N / 8 } else { 1 };
+        let i: usize = kani::any();
+        kani::assume(i < bm0 + nbm);
+        let hp = 128 + 8 * idx as usize;
+        if i >= hp && i < hp + 8 {
+            assert!(b.data[i] == off.to_le_bytes()[i - hp], "bucket head not stored as 8 bytes little endian at 128 + 8 * index");
+        } else if i == bm0 + (idx / 8) as usize {
+            let bit = 1u8 << (idx % 8);
+            assert!((b.data[i] & bit != 0) == (off != 0), "occupancy bit differs from 'bucket is non-empty'");
+            assert!(b.data[i] & !bit == img[i] & !bit, "occupancy bits of other buckets changed");
+        } else {
+            assert!(b.data[i] == img[i], "bucket write touched another bucket, another bitmap byte or the header");
         }
-        assert!(f.verif_buf().end == end && f.verif_buf().n_extend_by_seek == 0, "scan extended the file");
+        assert!(b.end == (bm0 + nbm) as u64, "bucket write left a wrong file length");
+        kani::cover!(off == 0 && head(&img, idx as usize) != 0, "bucket emptied");
+        kani::cover!(off != 0 && head(&img, idx as usize) == 0, "bucket filled");
+        kani::cover!(idx % 8 == 7, "highest bit of a bitmap byte");
         core::mem::forget(f);
     }
-    #[kani::proof]
-    #[kani::unwind(11)]
-    fn b_scan_n1() {
-        scan_sym_idx::<1>();
+    macro_rules! bucket_proof {
+        ($name:ident, $n:expr, $unwind:expr) => {
+            #[kani::proof]
+            #[kani::unwind($unwind)]
+            fn $name() {
+                bucket_write::<$n, { tsize!($n) }>();
+            }
+        };
+    }
+    bucket_proof!(b_bucket_n1, 1, 11);
+    bucket_proof!(b_bucket_n4, 4, 11);
+    bucket_proof!(b_bucket_n8, 8, 11);
+    bucket_proof!(b_bucket_n16, 16, 11);
+    bucket_proof!(b_bucket_n64, 64, 11);
+    bucket_proof!(b_bucket_n256, 256, 11);
+
+    // ------------------------------------------------------------------ HtxFile API: placement, item count
+    fn htx_api<const N: usize, const T: usize>() {
+        let (img, end) = table::<N, T>();
+        let count = u64::from_le_bytes([img[24], img[25], img[26], img[27], img[28], img[29], img[30], img[31]]);
+        let f = verif::htx::var_file(BufFile::from_image(img.to_vec(), end));
+        let mut h = verif::htx::htx_file(f, N as u64);
+        let hash: u64 = kani::any();
+        let hv = abyssiniandb::filedb::verif::HashValue::new(hash);
+        // placement: bucket = hash mod n (format stability)
+        let got = ok(h.read_key_piece_offset(hv));
+        assert!(got.as_value() == head(&img, (hash % N as u64) as usize), "lookup does not address bucket hash mod n");
+        assert!(ok(h.read_hash_buckets_size()) == N as u64, "table size is not the u64 at offset 16");
+        assert!(ok(h.read_item_count()) == count, "item count is not the u64 at offset 24");
+        let up: bool = kani::any();
+        if up {
+            kani::assume(count < u64::MAX);
+            ok(h.write_item_count_up());
+            assert!(ok(h.read_item_count()) == count + 1, "count up");
+        } else {
+            ok(h.write_item_count_down());
+            assert!(ok(h.read_item_count()) == if count > 0 { count - 1 } else { 0 }, "count down");
+        }
+        let off: u64 = kani::any();
+        ok(h.write_key_piece_offset(hv, KeyPieceOffset::new(off)));
+        assert!(ok(h.read_key_piece_offset(hv)).as_value() == off);
+        verif::htx::with_var_file(&h, |f| {
+            let b = f.verif_buf();
+            assert!(head(&b.data, (hash % N as u64) as usize) == off, "bucket of a key is not at 128 + 8 * (hash mod n)");
+            // the item count lives at 24..32 and nothing else of the header moved
+            let i: usize = kani::any();
+            kani::assume(i < 128 && !(i >= 24 && i < 32));
+            assert!(b.data[i] == img[i], "header changed by a count / bucket update");
+        });
+        core::mem::forget(h);
     }
     #[kani::proof]
     #[kani::unwind(11)]
-    fn b_scan_n2() {
-        scan_sym_idx::<2>();
+    fn b_htx_api_n8() {
+        htx_api::<8, { tsize!(8) }>();
     }
     #[kani::proof]
     #[kani::unwind(11)]
-    fn b_scan_n4() {
-        scan_sym_idx::<4>();
+    fn b_htx_api_n2() {
+        htx_api::<2, { tsize!(2) }>();
     }
     #[kani::proof]
     #[kani::unwind(11)]
-    fn b_scan_n8() {
-        scan_sym_idx::<8>();
+    fn b_htx_api_n64() {
+        htx_api::<64, { tsize!(64) }>();
+    }
+
+    /// C17: filling figure = number of non-empty buckets, per mille of the table size; read-only
+    fn fill_rate<const N: usize, const T: usize>() {
+        let (img, end) = table::<N, T>();
+        let mut buf = BufFile::from_image(img.to_vec(), end);
+        buf.ro = true;
+        let f = verif::htx::var_file(buf);
+        let h = verif::htx::htx_file(f, N as u64);
+        let (cnt, pm) = ok(h.htx_filling_rate_per_mill());
+        let mut e = 0u64;
+        let mut i = 0;
+        while i < N {
+            if head(&img, i) != 0 {
+                e += 1;
+            }
+            i += 1;
+        }
+        assert!(cnt == e, "filling figure differs from the number of non-empty buckets");
+        assert!(pm as u64 == e * 1000 / N as u64, "per-mille figure differs");
+        verif::htx::with_var_file(&h, |f| assert!(f.verif_buf().end == end && f.verif_buf().n_extend_by_seek == 0, "statistics call extended the file"));
+        kani::cover!(e == N as u64, "all buckets in use");
+        core::mem::forget(h);
+    }
+    #[kani::proof]
+    #[kani::unwind(11)]
+    fn b_fill_n8() {
+        fill_rate::<8, { tsize!(8) }>();
+    }
+    #[kani::proof]
+    #[kani::unwind(11)]
+    fn b_fill_n2() {
+        fill_rate::<2, { tsize!(2) }>();
     }
     #[kani::proof]
     #[kani::unwind(19)]
-    fn b_scan_n16() {
-        scan_sym_idx::<16>();
+    fn b_fill_n16() {
+        fill_rate::<16, { tsize!(16) }>();
     }
+
+    // ------------------------------------------------------------------ headers
+    fn hsz(which: u8) -> usize {
+        if which == 0 {
+            128
+        } else {
+            192
+        }
+    }
+    fn sig1(which: u8) -> [u8; 8] {
+        match which {
+            0 => spec::SIG_HTX,
+            1 => spec::SIG_KEY,
+            _ => spec::SIG_VAL,
+        }
+    }
+    fn var_file_of(which: u8, buf: BufFile) -> VarFile {
+        match which {
+            0 => verif::htx::var_file(buf),
+            1 => verif::key::var_file(buf),
+            _ => verif::val::var_file(buf),
+        }
+    }
+    fn check_header_of(which: u8, f: &mut VarFile, sig2: [u8; 8]) -> std::io::Result<()> {
+        match which {
+            0 => verif::htx::check_header(f, sig2),
+            1 => verif::key::check_header(f, sig2),
+            _ => verif::val::check_header(f, sig2),
+        }
+    }
+    /// documented header byte i of a freshly created file
+    fn header_byte(which: u8, sig2: &[u8; 8], n: u64, i: usize) -> u8 {
+        if i < 8 {
+            sig1(which)[i]
+        } else if i < 16 {
+            sig2[i - 8]
+        } else if which == 0 && i < 24 {
+            n.to_le_bytes()[i - 16]
+        } else {
+            0
+        }
+    }
+    /// the three header writers define every header byte (starting from arbitrary stale bytes),
+    /// produce the documented layout, and the crate's own checker accepts what they wrote
+    fn header_written(which: u8) {
+        let sig2: [u8; 8] = kani::any();
+        let img: [u8; 200] = kani::any();
+        let n: u64 = kani::any();
+        kani::assume(n >= 1);
+        let mut buf = BufFile::from_image(img.to_vec(), 0);
+        buf.bulk = true;
+        let mut f = var_file_of(which, buf);
+        match which {
+            0 => ok(verif::htx::write_init_header(&mut f, sig2, n)),
+            1 => ok(verif::key::write_init_header(&mut f, sig2)),
+            _ => ok(verif::val::write_init_header(&mut f, sig2)),
+        }
+        {
+            let b = f.verif_buf();
+            assert!(b.end == hsz(which) as u64, "header size differs from the documented one");
+            let i: usize = kani::any();
+            kani::assume(i < hsz(which));
+            assert!(b.data[i] == header_byte(which, &sig2, n, i), "header byte differs from the documented layout (or is left undefined)");
+        }
+        f.verif_buf_mut().ro = true;
+        ok(check_header_of(which, &mut f, sig2));
+        core::mem::forget(f);
+    }
+    #[kani::proof]
+    #[kani::unwind(10)]
+    fn b_hdr_write_htx() {
+        header_written(0);
+    }
+    #[kani::proof]
+    #[kani::unwind(10)]
+    fn b_hdr_write_key() {
+        header_written(1);
+    }
+    #[kani::proof]
+    #[kani::unwind(10)]
+    fn b_hdr_write_val() {
+        header_written(2);
+    }
+
+    /// a header whose 16 signature bytes are not exactly (format signature, expected type
+    /// signature) must be refused before anything else happens, and nothing is written
+    fn header_rejected(which: u8) {
+        let want: [u8; 8] = kani::any();
+        let img: [u8; 200] = kani::any();
+        let s1 = sig1(which);
+        let mut same = true;
+        let mut i = 0;
+        while i < 8 {
+            if img[i] != s1[i] || img[8 + i] != want[i] {
+                same = false;
+            }
+            i += 1;
+        }
+        kani::assume(!same);
+        let mut buf = BufFile::from_image(img.to_vec(), hsz(which) as u64 + 8);
+        buf.ro = true;
+        buf.bulk = true;
+        let mut f = var_file_of(which, buf);
+        let r = check_header_of(which, &mut f, want);
+        kani::cover!(true, "foreign header accepted");
+        core::mem::forget(r);
+        core::mem::forget(f);
+    }
+    #[kani::proof]
+    #[kani::unwind(10)]
+    fn b_hdr_reject_htx() {
+        header_rejected(0);
+    }
+    #[kani::proof]
+    #[kani::unwind(10)]
+    fn b_hdr_reject_key() {
+        header_rejected(1);
+    }
+    #[kani::proof]
+    #[kani::unwind(10)]
+    fn b_hdr_reject_val() {
+        header_rejected(2);
+    }
+
+    // ------------------------------------------------------------------ flush / sync plumbing
+    /// VarFile::flush / sync_all / sync_data reach the buffer's flush and the matching OS sync,
+    /// and hand a failing write-back to the caller
+    #[kani::proof]
+    #[kani::unwind(10)]
+    fn b_sync_plumbing() {
+        use std::io::Write;
+        let img: [u8; 64] = kani::any();
+        let mut f = verif::val::var_file(BufFile::from_image(img.to_vec(), 32));
+        ok(f.seek_from_start(ValuePieceOffset::new(8)));
+        ok(f.write_u64_le(kani::any()));
+        assert!(f.verif_buf().dirty);
+        let kind: u8 = kani::any();
+        kani::assume(kind < 3);
+        let fail: bool = kani::any();
+        f.verif_buf_mut().fail_flush = fail;
+        let r = match kind {
+            0 => f.flush(),
+            1 => f.sync_all(),
+            _ => f.sync_data(),
+        };
+        match r {
+            Ok(()) => {
+                assert!(!fail, "a failing write-back was swallowed");
+                let b = f.verif_buf();
+                assert!(!b.dirty && b.n_flush == 1, "buffer not flushed");
+                assert!(b.n_sync_all == if kind == 1 { 1 } else { 0 }, "sync_all does not reach the file's sync_all");
+                assert!(b.n_sync_data == if kind == 2 { 1 } else { 0 }, "sync_data does not reach the file's sync_data");
+                if kind != 0 {
+                    assert!(b.t_last_sync > b.t_last_flush && b.t_last_flush > b.t_last_write, "order write < flush < sync violated");
+                }
+            }
+            Err(e) => {
+                core::mem::forget(e);
+                assert!(fail, "flush failed without a fault");
+                assert!(f.verif_buf().dirty, "buffer marked clean although the write-back failed");
+            }
+        }
+        core::mem::forget(f);
+    }
+
+    // ------------------------------------------------------------------ open_with_params (real code; the
+    // file system is stubbed: OpenOptions::open hands out a dummy File, the buffer model takes the image)
+    use abyssiniandb::filedb::{FileBufSizeParam, FileDbParams, HashBucketsParam};
+    use abyssiniandb::filedb::verif::{KeyFile, ValueFile};
+    use abyssiniandb::DbBytes;
+    use std::fs::{File, OpenOptions};
+    use std::os::fd::FromRawFd;
+    use std::path::Path;
+    pub fn fmt_stub(_a: std::fmt::Arguments<'_>) -> String {
+        String::new()
+    }
+    pub fn dbg_stub(_e: &std::io::Error, _f: &mut std::fmt::Formatter<'_>) -> std::fmt::Result {
+        Ok(())
+    }
+    fn open_stub<P: AsRef<Path>>(_o: &OpenOptions, _p: P) -> std::io::Result<File> {
+        Ok(unsafe { File::from_raw_fd(100) })
+    }
+    fn any_buf_param() -> FileBufSizeParam {
+        let w: u8 = kani::any();
+        match w % 3 {
+            0 => FileBufSizeParam::Size(kani::any()),
+            1 => FileBufSizeParam::PerMille(kani::any()),
+            _ => FileBufSizeParam::Auto,
+        }
+    }
+    fn any_params(buckets: HashBucketsParam) -> FileDbParams {
+        FileDbParams { val_buf_size: any_buf_param(), key_buf_size: any_buf_param(), idx_buf_size: FileBufSizeParam::Auto, htx_buf_size: any_buf_param(), buckets_size: buckets }
+    }
+    fn npow2(x: u64) -> u64 {
+        // smallest power of two >= max(x, 1), x <= 16
+        if x <= 1 {
+            1
+        } else if x <= 2 {
+            2
+        } else if x <= 4 {
+            4
+        } else if x <= 8 {
+            8
+        } else {
+            16
+        }
+    }
+
+    /// creating a table file: bucket count from the parameters as documented (next power of two;
+    /// capacity -> at least 8 and at most 8/9 full), header = documented bytes with THAT count,
+    /// length 128 + 8n + n/8, table and bitmap all zero, handle caches the same count
+    #[kani::proof]
+    #[kani::unwind(10)]
+    #[kani::stub(alloc::fmt::format, fmt_stub)]
+    #[kani::stub(<std::io::Error as std::fmt::Debug>::fmt, dbg_stub)]
+    #[kani::stub(std::fs::OpenOptions::open, open_stub)]
+    fn b_open_htx_new() {
+        let img: [u8; 300] = kani::any();
+        rabuf::set_next_image(img.to_vec(), 0);
+        rabuf::set_next_bulk(true);
+        let x: u64 = kani::any();
+        let by_cap: bool = kani::any();
+        let (bp, expect) = if by_cap {
+            kani::assume(x >= 1 && x <= 14);
+            (HashBucketsParam::Capacity(x), if x < 8 { 8 } else { npow2(x + x / 8) })
+        } else {
+            kani::assume(x <= 16);
+            (HashBucketsParam::BucketsSize(x), npow2(x))
+        };
+        let params = any_params(bp);
+        let sig2: [u8; 8] = kani::any();
+        let h = ok(HtxFile::open_with_params("d", "m", sig2, &params));
+        assert!(verif::htx::cached_buckets_size(&h) == expect, "bucket count of a new table differs from the documented function of the parameters");
+        assert!(ok(h.read_hash_buckets_size()) == expect, "stored bucket count differs from the one the handle works with");
+        assert!(ok(h.read_item_count()) == 0);
+        verif::htx::with_var_file(&h, |f| {
+            let b = f.verif_buf();
+            assert!(b.end == spec::htx_file_len(expect), "length of a new table file differs from 128 + 8n + n/8");
+            let i: usize = kani::any();
+            kani::assume((i as u64) < b.end);
+            let e = if i < 128 { header_byte(0, &sig2, expect, i) } else { 0 };
+            assert!(b.data[i] == e, "new table file: byte differs from the documented layout (stale or undefined)");
+            if let FileBufSizeParam::Size(_) = params.htx_buf_size {
+                assert!(b.asked_chunks >= 2, "fixed buffer with fewer than two chunks");
+            }
+        });
+        kani::cover!(by_cap && expect == 16, "capacity rounded up to 16 buckets");
+        kani::cover!(!by_cap && x == 3, "BucketsSize(3)");
+        core::mem::forget(h);
+    }
+
+    /// opening an EXISTING table file: parameters are ignored in favour of what is stored, nothing
+    /// is written, the handle caches the stored bucket count
+    fn open_htx_existing<const N: usize, const T: usize>() {
+        let (img, end) = table::<N, T>();
+        rabuf::set_next_image(img.to_vec(), end);
+        rabuf::set_next_bulk(true);
+        let x: u64 = kani::any();
+        let w: u8 = kani::any();
+        let bp = match w % 3 {
+            0 => HashBucketsParam::BucketsSize(x),
+            1 => {
+                kani::assume(x >= 1 && x < (1 << 60));
+                HashBucketsParam::Capacity(x)
+            }
+            _ => HashBucketsParam::Default,
+        };
+        let params = any_params(bp);
+        let h = ok(HtxFile::open_with_params("d", "m", spec::TSIG_BYTES, &params));
+        assert!(verif::htx::cached_buckets_size(&h) == N as u64, "handle works with a bucket count that is not the stored one");
+        assert!(ok(h.read_hash_buckets_size()) == N as u64);
+        verif::htx::with_var_file(&h, |f| {
+            let b = f.verif_buf();
+            assert!(b.n_writes == 0 && b.n_set_len == 0 && b.end == end, "opening an existing table wrote to it");
+        });
+        // and the handle addresses buckets with the stored count
+        let hash: u64 = kani::any();
+        let got = ok(h.read_key_piece_offset(abyssiniandb::filedb::verif::HashValue::new(hash)));
+        assert!(got.as_value() == head(&img, (hash % N as u64) as usize), "lookup after reopen does not address bucket hash mod stored n");
+        core::mem::forget(h);
+    }
+    #[kani::proof]
+    #[kani::unwind(10)]
+    #[kani::stub(alloc::fmt::format, fmt_stub)]
+    #[kani::stub(<std::io::Error as std::fmt::Debug>::fmt, dbg_stub)]
+    #[kani::stub(std::fs::OpenOptions::open, open_stub)]
+    fn b_open_htx_existing_n8() {
+        open_htx_existing::<8, { tsize!(8) }>();
+    }
+    #[kani::proof]
+    #[kani::unwind(10)]
+    #[kani::stub(alloc::fmt::format, fmt_stub)]
+    #[kani::stub(<std::io::Error as std::fmt::Debug>::fmt, dbg_stub)]
+    #[kani::stub(std::fs::OpenOptions::open, open_stub)]
+    fn b_open_htx_existing_n2() {
+        open_htx_existing::<2, { tsize!(2) }>();
+    }
+
+    /// key / value file: created with the documented header, an existing one is checked and left alone
+    fn open_dat(which: u8, existing: bool) {
+        let mut img: [u8; 260] = kani::any();
+        let sig2: [u8; 8] = kani::any();
+        let end: u64 = if existing {
+            let s1 = sig1(which);
+            let mut i = 0;
+            while i < 8 {
+                img[i] = s1[i];
+                img[8 + i] = sig2[i];
+                img[16 + i] = 0;
+                i += 1;
+            }
+            let e: u64 = kani::any();
+            kani::assume(e >= 192 && e <= 256 && e % 8 == 0);
+            e
+        } else {
+            0
+        };
+        rabuf::set_next_image(img.to_vec(), end);
+        rabuf::set_next_bulk(true);
+        let params = any_params(HashBucketsParam::Default);
+        let fixed = match if which == 1 { &params.key_buf_size } else { &params.val_buf_size } {
+            FileBufSizeParam::Size(_) => true,
+            _ => false,
+        };
+        let check = |f: &mut VarFile| {
+            let b = f.verif_buf();
+            if existing {
+                assert!(b.n_writes == 0 && b.n_set_len == 0 && b.end == end, "opening an existing file wrote to it");
+            } else {
+                assert!(b.end == 192, "new file is not exactly the 192-byte header");
+                let i: usize = kani::any();
+                kani::assume(i < 192);
+                assert!(b.data[i] == header_byte(which, &sig2, 0, i), "new file: header byte differs from the documented layout");
+            }
+            if fixed {
+                assert!(b.asked_chunks >= 2, "fixed buffer with fewer than two chunks");
+            }
+        };
+        if which == 1 {
+            let k: KeyFile<DbBytes> = ok(KeyFile::open_with_params("d", "m", sig2, &params));
+            verif::key::with_var_file(&k, check);
+            core::mem::forget(k);
+        } else {
+            let v = ok(ValueFile::open_with_params("d", "m", sig2, &params));
+            verif::val::with_var_file(&v, check);
+            core::mem::forget(v);
+        }
+    }
+    macro_rules! open_dat_proof {
+        ($name:ident, $which:expr, $existing:expr) => {
+            #[kani::proof]
+            #[kani::unwind(10)]
+            #[kani::stub(alloc::fmt::format, fmt_stub)]
+            #[kani::stub(<std::io::Error as std::fmt::Debug>::fmt, dbg_stub)]
+            #[kani::stub(std::fs::OpenOptions::open, open_stub)]
+            fn $name() {
+                open_dat($which, $existing);
+            }
+        };
+    }
+    open_dat_proof!(b_open_key_new, 1, false);
+    open_dat_proof!(b_open_key_existing, 1, true);
+    open_dat_proof!(b_open_val_new, 2, false);
+    open_dat_proof!(b_open_val_existing, 2, true);
+
+    /// the real open_with_params refuses files with a foreign signature pair before anything else
+    fn open_rejected(which: u8) {
+        let want: [u8; 8] = kani::any();
+        let img: [u8; 260] = kani::any();
+        let s1 = sig1(which);
+        let mut same = true;
+        let mut i = 0;
+        while i < 8 {
+            if img[i] != s1[i] || img[8 + i] != want[i] {
+                same = false;
+            }
+            i += 1;
+        }
+        kani::assume(!same);
+        rabuf::set_next_image(img.to_vec(), 200);
+        rabuf::set_next_bulk(true);
+        let params = FileDbParams::default();
+        match which {
+            0 => {
+                let r = HtxFile::open_with_params("d", "m", want, &params);
+                kani::cover!(true, "foreign header accepted");
+                core::mem::forget(r);
+            }
+            1 => {
+                let r: std::io::Result<KeyFile<DbBytes>> = KeyFile::open_with_params("d", "m", want, &params);
+                kani::cover!(true, "foreign header accepted");
+                core::mem::forget(r);
+            }
+            _ => {
+                let r = ValueFile::open_with_params("d", "m", want, &params);
+                kani::cover!(true, "foreign header accepted");
+                core::mem::forget(r);
+            }
+        }
+    }
+    macro_rules! open_rej_proof {
+        ($name:ident, $which:expr) => {
+            #[kani::proof]
+            #[kani::unwind(10)]
+            #[kani::stub(alloc::fmt::format, fmt_stub)]
+            #[kani::stub(<std::io::Error as std::fmt::Debug>::fmt, dbg_stub)]
+            #[kani::stub(std::fs::OpenOptions::open, open_stub)]
+            fn $name() {
+                open_rejected($which);
+            }
+        };
+    }
+    open_rej_proof!(b_open_reject_htx, 0);
+    open_rej_proof!(b_open_reject_key, 1);
+    open_rej_proof!(b_open_reject_val, 2);
 }
